@@ -93,6 +93,7 @@ const (
 	ExecSync = iota
 	ExecAsync
 	ExecDefault
+	ExecQueued // tasks are only queued while the workload runs (a stalled pool): the write buffer fills up and writers assist
 )
 
 // TrialCfg describes one trial.
@@ -134,6 +135,8 @@ type Trial struct {
 	stalled atomic.Bool
 	loaderV atomic.Int64
 	loads   atomic.Int64
+	qmu            sync.Mutex
+	queue          []func()
 	churnViolation atomic.Pointer[string]
 	churnReads     atomic.Int64
 	Clock   *phaseClock
@@ -269,6 +272,13 @@ func NewTrial(cfg TrialCfg) (*Trial, error) {
 	case ExecDefault:
 		installDefaultExecutor()
 		currentTrial.Store(t)
+	case ExecQueued:
+		o.Executor = func(fn func()) {
+			t.tasks.Add(1)
+			t.qmu.Lock()
+			t.queue = append(t.queue, fn)
+			t.qmu.Unlock()
+		}
 	}
 	if cfg.Stats {
 		t.Counter = stats.NewCounter()
@@ -587,7 +597,23 @@ func (t *Trial) Run() {
 	t.bodyWrites.Wait()
 	stop.Store(true)
 	cwg.Wait()
-	t.wg.Wait()
+	t.Settle()
+}
+
+// Settle waits for the executor to go idle; queued tasks are run in submission order.
+func (t *Trial) Settle() {
+	for {
+		t.wg.Wait()
+		t.qmu.Lock()
+		if len(t.queue) == 0 {
+			t.qmu.Unlock()
+			return
+		}
+		fn := t.queue[0]
+		t.queue = t.queue[1:]
+		t.qmu.Unlock()
+		fn()
+	}
 }
 
 // Close releases the cache.
